@@ -96,7 +96,10 @@ RMaxOver(S, f(_)) == FoldSet(LAMBDA i, acc : RMax(acc, f(i)), NegInf, S)
 (* for equality.  `Exact' is recorded separately (it is what is expected   *)
 (* in the exact families) but never decides a verdict.                     *)
 (***************************************************************************)
+\* the scale 1 + |spec| of the tolerance; for specification values with a large denominator the next integer above it
+\* (at most twice the scale) keeps the product with the tolerance inside TLC's 32-bit integers
+CloseScale(spec) == IF spec[2] > 4096 THEN R(2 + RFloor(RAbs(spec))) ELSE RAdd(R(1), RAbs(spec))
 Close(spec, obs, tol) ==
   IF ~IsFin(spec) \/ ~IsFin(obs) THEN spec = obs
-  ELSE spec = obs \/ RLe(RAbs(RSub(spec, obs)), RMul(tol, RAdd(R(1), RAbs(spec))))
+  ELSE spec = obs \/ RLe(RAbs(RSub(spec, obs)), RMul(tol, CloseScale(spec)))
 =============================================================================
